@@ -3,6 +3,7 @@ import MesaModel.Proofs.LegacyOrth
 import MesaModel.Proofs.LegacyHex
 import MesaModel.Proofs.LegacyNet
 import MesaModel.Proofs.LegacyDist
+import MesaModel.Proofs.LegacyNetState
 /-!
 # C09 — legacy neighbourhood queries return exactly the cells/agents in range
 
@@ -109,6 +110,33 @@ theorem C09_network_all_simple_graphs (t : Net) (hs : SimpleEdges t.edges) (v : 
     (t.nbhd v ic r).Nodup ∧ ∀ u, u ∈ t.nbhd v ic r ↔ (u = v → ic = true) ∧ (u ≠ v → Reach (adjOf t.edges) r v u) :=
   net_nbhd_spec t hs v ic r
 
+/-- **NetworkGrid `get_neighbors` / `get_cell_list_contents` return exactly the agents occupying those nodes**:
+    for any state whose views agree (every reachable one, `C08_network_views_agree_all_histories`) and any
+    duplicate-free list of nodes, the agents returned are the agents whose `pos` is one of the nodes, each once,
+    node by node in list order; a node that does not exist raises KeyError -/
+theorem C09_network_contents_spec (t : Net) (hi : NetInv t) (nodes : List Nat) :
+    (nodes.Nodup → (t.cellsContents nodes).Nodup ∧ ∀ a, a ∈ t.cellsContents nodes ↔ ∃ u ∈ nodes, t.pos a = some u) ∧
+    t.cellsContents nodes = nodes.flatMap t.content ∧
+    ((∀ u ∈ nodes, u < t.n) → t.getCellListContents nodes = .ok (t.cellsContents nodes)) ∧
+    ((∃ u ∈ nodes, ¬ u < t.n) → t.getCellListContents nodes = .error .key) := by
+  refine ⟨net_cellsContents_spec t hi nodes, net_cellsContents_eq t nodes, ?_, ?_⟩
+  · intro h; unfold Net.getCellListContents; rw [if_pos]; simpa using h
+  · rintro ⟨u, hu, hlt⟩; unfold Net.getCellListContents; rw [if_neg]
+    simp only [List.all_eq_true, decide_eq_true_eq]; intro h; exact hlt (h u hu)
+
+/-- so the NetworkGrid neighbours of a query are the agents standing on nodes within r hops (centre by flag) -/
+theorem C09_network_neighbors_exact (t : Net) (hi : NetInv t) (hs : SimpleEdges t.edges) (v : Nat) (ic : Bool) (r : Nat) :
+    (t.cellsContents (t.nbhd v ic r)).Nodup ∧
+    ∀ a, a ∈ t.cellsContents (t.nbhd v ic r) ↔
+      ∃ u, t.pos a = some u ∧ (u = v → ic = true) ∧ (u ≠ v → Reach (adjOf t.edges) r v u) := by
+  obtain ⟨hnd, hmem⟩ := net_nbhd_spec t hs v ic r
+  obtain ⟨h1, h2⟩ := net_cellsContents_spec t hi _ hnd
+  refine ⟨h1, fun a => ?_⟩
+  rw [h2]
+  constructor
+  · rintro ⟨u, hu, hp⟩; exact ⟨u, hp, (hmem u).mp hu⟩
+  · rintro ⟨u, hp, hu⟩; exact ⟨u, (hmem u).mpr hu, hp⟩
+
 /-! ## non-vacuity -/
 
 /-- a 2-wide torus with radius 2 > size: wrapped offsets collide, the result still has each cell once -/
@@ -119,5 +147,8 @@ example : hexCompute ⟨4, 4, true⟩ (0, 0) false 1 = [(0, 1), (0, 3), (1, 0), 
 example : SimpleEdges [(2, 1), (1, 0), (3, 1)] := by unfold SimpleEdges; decide
 example : (Net.init 4 [(2, 1), (1, 0), (3, 1)]).nbhd 1 true 1 = [2, 0, 3, 1] := by decide
 example : 3 ∈ ball (adjOf [(2, 1), (1, 0), (3, 1)]) 2 0 := by decide
+/-- two agents on one node, one on another: the neighbours of node 0 within one hop, in `G.neighbors` order -/
+example : (nrun (Net.init 4 [(2, 1), (1, 0), (3, 1)]) [.place 0 1, .place 1 3, .place 2 1]).cellsContents
+    ((Net.init 4 [(2, 1), (1, 0), (3, 1)]).nbhd 0 true 1) = [0, 2] := by decide
 
 end Mesa.Legacy
